@@ -63,9 +63,12 @@ struct Scen {
     sorted: bool,
     /// receive budgets of the consumer polls (sum = number of messages)
     budgets: Vec<usize>,
+    /// one-pass session (messages are dropped after delivery) with a one-pass query over the whole file and an idle
+    /// poll (a stall of the producer as the consumer sees it) after every message-bearing poll
+    one_pass: bool,
 }
 fn scen_json(s: &Scen) -> Value {
-    json!({"family": "remote_consumer_pacing", "consumer_early(gate)": s.gate, "sorted": s.sorted, "budgets": s.budgets})
+    json!({"family": "remote_consumer_pacing", "consumer_early(gate)": s.gate, "sorted": s.sorted, "budgets": s.budgets, "one_pass": s.one_pass})
 }
 
 /// latest lifecycle info per id as the client saw it: id -> (ecu, nr_msgs)
@@ -73,6 +76,7 @@ type View = BTreeMap<u64, (String, u64)>;
 
 /// what the client saw: the lifecycle table, and the message indices delivered under the id of the filtered stream
 type Seen = (View, Vec<u64>);
+const QUERY_ONE_PASS: &str = r#"C query {"one_pass":true,"window":[0,100],"binary":true}"#;
 const STREAM: &str = r#"C stream {"window":[1,3],"binary":true,"filters":[{"type":0,"ecu":"ECU2"}]}"#;
 
 fn run(d: &mut Driver, file: &str, s: &Scen) -> Result<(Seen, Vec<(String, String, String)>), DriverErr> {
@@ -109,14 +113,19 @@ fn run(d: &mut Driver, file: &str, s: &Scen) -> Result<(Seen, Vec<(String, Strin
     if s.gate {
         step(d, "GATE arm", &mut view, &mut viol)?;
     }
-    let open = if s.sorted { format!(r#"C open {{"files":["{file}"],"sort":true}}"#) } else { format!(r#"C open {{"files":["{file}"]}}"#) };
+    let open = if s.one_pass {
+        format!(r#"C open {{"files":["{file}"],"collect":"one_pass_streams"}}"#)
+    } else if s.sorted { format!(r#"C open {{"files":["{file}"],"sort":true}}"#) } else { format!(r#"C open {{"files":["{file}"]}}"#) };
     step(d, &open, &mut view, &mut viol)?;
     // a filtered stream whose window starts behind the first match: its first matches arrive late in the file
-    let r = step(d, STREAM, &mut view, &mut viol)?;
+    let r = step(d, if s.one_pass { QUERY_ONE_PASS } else { STREAM }, &mut view, &mut viol)?;
     let reply = r["frames"][0]["t"].as_str().unwrap_or("").to_string();
     sid.set(reply.split("\"id\":").nth(1).and_then(|x| x.trim_start().chars().take_while(|c| c.is_ascii_digit()).collect::<String>().parse().ok()));
     if sid.get().is_none() {
         viol.push(("stream_rejected".into(), "".into(), reply));
+    }
+    if s.one_pass {
+        step(d, "C resume", &mut view, &mut viol)?;
     }
     if !s.gate {
         // consumer late: let the pipeline finish first (T inf returns when the channel is disconnected; it must not
@@ -125,6 +134,9 @@ fn run(d: &mut Driver, file: &str, s: &Scen) -> Result<(Seen, Vec<(String, Strin
     }
     for b in &s.budgets {
         step(d, &format!("T {b}"), &mut view, &mut viol)?;
+        if s.one_pass {
+            step(d, "T 0", &mut view, &mut viol)?;
+        }
     }
     if s.gate {
         step(d, "GATE wait", &mut view, &mut viol)?;
@@ -152,10 +164,16 @@ fn judge(ctx: &mut Ctx, s: &Scen, r: Result<(Seen, Vec<(String, String, String)>
                 ctx.violation(&c, &d, cj, detail);
             }
             // the filtered stream delivered positions [1,3) of the ECU2 messages, whatever the pacing
-            let want: Vec<u64> = ecu2_idx.iter().copied().skip(1).take(2).collect();
+            let n_all: u64 = counts.values().map(|x| *x as u64).sum();
+            let want: Vec<u64> = if s.one_pass { (0..n_all).collect() } else { ecu2_idx.iter().copied().skip(1).take(2).collect() };
             if sgot != want {
-                ctx.violation("client_stream_differs", if s.gate { "consumer_early" } else { "consumer_late" }, cj, format!("the stream with window [1,3) of the ECU2 messages delivered the messages with index {:?}, expected {:?}", sgot, want));
+                let what = if s.one_pass { "the one-pass query over the whole file".to_string() } else { "the stream with window [1,3) of the ECU2 messages".to_string() };
+                ctx.violation("client_stream_differs", &format!("{}{}", if s.gate { "consumer_early" } else { "consumer_late" }, if s.one_pass { ":one_pass" } else { "" }), cj, format!("{what} delivered the messages with index {:?}, expected {:?}", sgot, want));
                 return;
+            }
+            if s.one_pass {
+                // (the lifecycle table of a one-pass session is judged by the same clauses below)
+                ctx.landmark("one_pass_query_with_stalls");
             }
             // the client's table lists every message
             let mut per_ecu: BTreeMap<String, u64> = BTreeMap::new();
@@ -186,11 +204,11 @@ impl Prop for C13r {
         Meta {
             id: "C13",
             level: "model_checking",
-            rule: "remote consumer half of C13: the real consumer of `adlt remote` (process_file_context, stepped through the cfg(adlt_verif) driver with explicit receive budgets) against the real pipeline (parser -> lifecycle stage -> [time sort]) on a 23-message file (a confirmed lifecycle that keeps growing + a lifecycle still buffered at the end). The lifecycle stage is held at a gate right before its final publication (hook lifecycle::verif_gate), which makes the two extreme pacings deterministic: 'consumer late' (pipeline finished before the first poll) and 'consumer early' (every message received, one idle poll, only then the final publication), 'consumer late' x {unsorted, sorted} and 'consumer early' x unsorted (the time sort holds its last window back until its input ends), each x every split of the receive budget into 1..2 polls (thorough: 1..3). A filtered stream (ECU2 messages, window [1,3)) is open during the run. Oracle: the lifecycle table the client has been sent (latest info per id) lists every message of the file and is the same for both pacings; the stream delivers exactly the 2nd and 3rd ECU2 message for every pacing and budget split; every step answers, no panic.".into(),
+            rule: "remote consumer half of C13: the real consumer of `adlt remote` (process_file_context, stepped through the cfg(adlt_verif) driver with explicit receive budgets) against the real pipeline (parser -> lifecycle stage -> [time sort]) on a 23-message file (a confirmed lifecycle that keeps growing + a lifecycle still buffered at the end). The lifecycle stage is held at a gate right before its final publication (hook lifecycle::verif_gate), which makes the two extreme pacings deterministic: 'consumer late' (pipeline finished before the first poll) and 'consumer early' (every message received, one idle poll, only then the final publication), 'consumer late' x {unsorted, sorted} and 'consumer early' x unsorted (the time sort holds its last window back until its input ends), each x every split of the receive budget into 1..2 polls (thorough: 1..3). A filtered stream (ECU2 messages, window [1,3)) is open during the run; the unsorted scenarios are repeated as one-pass sessions with a one-pass query over the whole file and an idle poll (a stall) after every message-bearing poll: the query must deliver every message. Oracle: the lifecycle table the client has been sent (latest info per id) lists every message of the file and is the same for both pacings; the stream delivers exactly the 2nd and 3rd ECU2 message for every pacing and budget split; every step answers, no panic.".into(),
             assumptions: vec!["the gate hook sits between the flush of the buffered messages and the final forced refresh of parse_lifecycles_buffered_from_stream (add-only, cfg adlt_verif)".into(), "pacings between the two extremes are covered by the scheduler engine on the library stages, not on the binary's consumer".into()],
             budget_s: (120, 600),
             workers: 1,
-            required_landmarks: vec!["consumer_early", "consumer_late"],
+            required_landmarks: vec!["consumer_early", "consumer_late", "one_pass_query_with_stalls"],
         }
     }
     fn prepare(&self, _t: Tier) -> Result<(), String> {
@@ -224,9 +242,9 @@ impl Prop for C13r {
                     // gate the consumer cannot receive every message; the early pacing is explored on the unsorted pipeline
                     continue;
                 }
-                for b in &budgets {
+                for (b, one_pass) in budgets.iter().map(|b| (b, false)).chain(budgets.iter().filter(|_| !sorted).map(|b| (b, true))) {
                     ctx.mine();
-                    let s = Scen { gate, sorted, budgets: b.clone() };
+                    let s = Scen { gate, sorted, budgets: b.clone(), one_pass };
                     let r = run(&mut d, &file, &s);
                     if r.is_err() {
                         d.kill();
@@ -258,6 +276,7 @@ impl Prop for C13r {
             gate: case["consumer_early(gate)"].as_bool().unwrap_or(true),
             sorted: case["sorted"].as_bool().unwrap_or(false),
             budgets: case["budgets"].as_array().map(|a| a.iter().map(|x| x.as_u64().unwrap_or(0) as usize).collect()).unwrap_or_default(),
+            one_pass: case["one_pass"].as_bool().unwrap_or(false),
         };
         let mut d = Driver::spawn();
         let mut reference: BTreeMap<bool, View> = BTreeMap::new();
